@@ -145,6 +145,10 @@ def oracle(ctx):
             except OSError:
                 pass
         out = os.path.join(base, 'out')
+        if hash(base) % 2:
+            # the output directory already holds an older, longer generation of the same files
+            e2e.run_binary(['--no-kmsg-log', out], os.path.join(base, 'src'))
+            e2e.make_stale(out)
         rc, so, se = e2e.run_binary(['--no-kmsg-log', out], os.path.join(base, 'src'))
         services = {}
         if os.path.isdir(out):
